@@ -661,10 +661,42 @@ def r_resolution_map(chk, P, tier):
                         expect("to_naive_time without " + drop, kw2, got, got == ("Err", "NotEnough"))
     for kw in ({"hour_div_12": 2, "hour_mod_12": 0, "minute": 0}, {"hour_div_12": 0, "hour_mod_12": 12, "minute": 0}, {"hour_div_12": 0, "hour_mod_12": 0, "minute": 60},
                {"hour_div_12": 0, "hour_mod_12": 0, "minute": 0, "second": 61}, {"hour_div_12": 0, "hour_mod_12": 0, "minute": 0, "second": 0, "nanosecond": 10**9},
-               {"hour_div_12": -1, "hour_mod_12": 0, "minute": 0}):
+               {"hour_div_12": 2**32 - 1, "hour_mod_12": 0, "minute": 0}):
         got = fold("to_naive_time", kw)
         expect("to_naive_time out of range", kw, got, got == ("Err", "OutOfRange"))
+    # date-time with a timestamp next to complete date and time fields: the timestamp must denote the same instant (for second 60 either representation of the leap second)
+    epoch = cal.day_number(1970, 1, 1)
+
+    def fold_dt(kw, off):
+        try:
+            v = show(fo.call(F + "to_naive_datetime_with_offset", [parsed(kw), ("const", off)]))
+        except Unknown as e:
+            return ("unknown", str(e))
+        if isinstance(v, tuple) and v[0] == "Result::Ok":
+            return ("Ok", v[1][1][1], v[1][2][1], v[1][2][2])
+        if isinstance(v, tuple) and v[0] == "Result::Err":
+            return ("Err", _err_kind(v))
+        return ("?", v)
+    for (y, m, d) in [(2024, 2, 29), (1969, 12, 31), (1970, 1, 1), (2000, 1, 1)]:
+        o = cal.ordinal(y, m, d)
+        yof = (y << 13) | (o << 4) | tbl[y % 400]
+        for (h, mi, sec) in ((0, 0, 0), (15, 4, 5), (23, 59, 59), (23, 59, 60)):
+            for off in (0, 3600, -5400):
+                s2 = 59 if sec == 60 else sec
+                local = (cal.day_number(y, m, d) - epoch) * 86400 + h * 3600 + mi * 60 + s2
+                ts = local - off
+                base = {"year": y, "month": m, "day": d, "hour_div_12": h // 12, "hour_mod_12": h % 12, "minute": mi, "second": sec}
+                w_ok = ("Ok", yof, h * 3600 + mi * 60 + s2, 10**9 if sec == 60 else 0)
+                got = fold_dt(base, off)
+                expect("date-time fields without timestamp", ((y, m, d, h, mi, sec), off), got, got == w_ok)
+                for delta in (-2, -1, 0, 1, 2, 60, -86400):
+                    kw = dict(base, timestamp=ts + delta)
+                    consistent = delta == 0 or (sec == 60 and delta == 1)
+                    got = fold_dt(kw, off)
+                    expect("date-time fields + %s timestamp" % ("consistent" if consistent else "contradicting"), ((y, m, d, h, mi, sec), off, delta), got,
+                           got == w_ok if consistent else got == ("Err", "Impossible"))
     for _ in range(n_ok[0]):
         chk.ok("value")
     for cls, (a, got) in sorted(bad.items()):
-        chk.bad(cls, "%s: fields derived from %s resolve to %s" % (cls, a, got), loc=P.loc(F + ("to_naive_time" if cls.startswith("to_naive_time") else "to_naive_date")))
+        fnn = "to_naive_time" if cls.startswith("to_naive_time") else ("to_naive_datetime_with_offset" if cls.startswith("date-time") else "to_naive_date")
+        chk.bad(cls, "%s: fields derived from %s resolve to %s" % (cls, a, got), loc=P.loc(F + fnn))
